@@ -197,6 +197,18 @@ def directed(seed, quick):
             {"op": "join", "f": 1}, {"op": "join", "f": 2},
             {"op": "work", "n": 260, "mix": "pattern"}]},
     ]
+    scs += [
+        # records with small and with large values (around and above the stream writer's 4096-byte batch buffer) pile up
+        # while the follower is away and are streamed in one burst when it resumes: the order of the log must survive
+        {"name": "dir-big-values-in-backlog", "cfg": {"ring": 1048576}, "steps": [
+            {"op": "work", "n": 8, "mix": "value"},
+            {"op": "join", "f": 1, "faults": [{"kind": "cut", "phase": "live", "rec": 3, "res": r(9)}]},
+            {"op": "join", "f": 2, "faults": [{"kind": "stall", "phase": "live", "rec": 2, "secs": 3}]},
+            {"op": "work", "n": 6, "mix": "value"},
+            {"op": "wait", "f": 1, "ev": "cut", "nth": 1},
+            {"op": "work", "n": 40, "mix": "mixedbig"},
+            {"op": "work", "n": 10, "mix": "plain"}]},
+    ]
     if not quick:
         scs += [
             # slow follower: the proxy stops reading while the leader logs large values; the leader either keeps the
@@ -243,9 +255,9 @@ def seeded(seed, i):
     """Random fault plans (not from the model): 1-2 followers, 1-2 faults each, wide coordinates."""
     rng = random.Random(f"rnd/{seed}/{i}")
     nf = rng.choice([1, 1, 2])
-    mix = rng.choice(["value", "value", "plain"])
+    mix = rng.choice(["value", "value", "plain", "mixedbig"])
     rot = rng.random() < 0.3
-    cfg = {"ring": 4096}
+    cfg = {"ring": 4096 if mix != "mixedbig" else 1048576}
     if rot:
         cfg["rewrite"] = 12 + 64 * rng.choice([30, 45, 60])
         mix = "plain" if rng.random() < 0.7 else mix
